@@ -16,9 +16,14 @@ NOT_DECIDED = "the numeric round trip itself over all formats and values (the pr
 
 
 def _field_loop(fn):
+    """the loop over the bit field lengths of the format: `for .. in [enumerate(]fmt.split()[)]`, the split possibly hoisted"""
+    hoisted = {st.targets[0].id for st in fn.body if isinstance(st, ast.Assign) and len(st.targets) == 1 and
+               isinstance(st.targets[0], ast.Name) and src(st.value) == "fmt.split()"}
     for n in fn.body:
-        if isinstance(n, ast.For) and "fmt.split()" in src(n.iter):
-            return n
+        if isinstance(n, ast.For):
+            it = src(n.iter)
+            if "fmt.split()" in it or any(it in (h, "enumerate(%s)" % h) for h in hoisted):
+                return n
     return None
 
 
@@ -99,3 +104,21 @@ def check(ctx):
                   "the argument may be the caller's live buffer (or the shared mutable default): e.g. reversing it in place makes a "
                   "second decode of the same bytes return different fields")
     ctx.floor("T4-args:functions", k, 8)
+    # integers <-> bytes are unsigned: a struct fast path must use unsigned codes
+    ctx.rule("T9-unsigned", "struct codes used by aid.byting are the unsigned ones (B H I L Q), whether written in place or kept in a table")
+    tables = {st.targets[0].id: st.value for st in m.tree.body if isinstance(st, ast.Assign) and len(st.targets) == 1 and
+              isinstance(st.targets[0], ast.Name) and isinstance(st.value, (ast.Dict, ast.Tuple, ast.List))}
+    ns = 0
+    for f in [x for x in m.tree.body if isinstance(x, ast.FunctionDef)]:
+        for c in [x for x in ast.walk(f) if isinstance(x, ast.Call) and (call_name(x) or "").startswith("struct.")]:
+            if not c.args:
+                continue
+            ns += 1
+            fmt_e = c.args[0]
+            texts = [x.value for x in ast.walk(fmt_e) if isinstance(x, ast.Constant) and isinstance(x.value, str)]
+            for nm in [x.id for x in ast.walk(f) if isinstance(x, ast.Name) and x.id in tables]:     # tables the function reads codes from
+                texts += [x.value for x in ast.walk(tables[nm]) if isinstance(x, ast.Constant) and isinstance(x.value, str)]
+            signed = sorted({ch for t_ in texts for ch in t_ if ch in "bhilqn"})
+            ctx.check(not signed, "T9-unsigned", c, "%s: %s uses struct codes %s" % (f.name, src(c)[:50], sorted(set("".join(texts)))),
+                      "a signed code (%s) decodes the top bit as a sign: unbytify(bytify(n)) comes back negative for n >= 2**(8*size-1)" % ",".join(signed))
+    ctx.ok("T9-unsigned", "ioflo/aid/byting.py", "%d struct calls" % ns)
